@@ -152,6 +152,15 @@ theorem framing_exact (out marker rc : Str) (chunks : List Str)
     intro h; rw [h] at hflat; exact framed_ne_nil out marker rc hflat.symm
   exact readLoop_framed_aux out marker rc hne hm hr chunks [] hn hch (by simpa using hflat)
 
+/-- the same with the hypothesis in its natural form: the marker contains no `:` (it is `SF_CMD_END_<uuid4>`) and the text
+    `marker:` does not occur inside the command's output -/
+theorem framing_exact_fresh (out marker rc : Str) (chunks : List Str)
+    (hcolon : ∀ c ∈ marker, c ≠ ':') (hfresh : ∀ p, (marker ++ [':']).isPrefixOf (out.drop p) = false)
+    (hm : ∀ c ∈ marker, c ≠ '\n') (hr : ∀ c ∈ rc, c ≠ '\n')
+    (hch : ∀ ch ∈ chunks, ch ≠ []) (hflat : chunks.flatten = framed out marker rc) :
+    readLoop marker [] chunks = some ((strip out, rc), []) :=
+  framing_exact out marker rc chunks (noEarly_of_fresh out marker rc hcolon hfresh) hm hr hch hflat
+
 /-- non-vacuity of `framing_exact`: an output without trailing newline, cut in the middle of the marker -/
 example : readLoop "M1".toList [] ["ab".toList, "cM".toList, "1:".toList, "0\n".toList] = some (("abc".toList, "0".toList), []) := by
   decide
